@@ -14,7 +14,7 @@ RULE = ('division events (/ // % by operator, fxpmath function and NumPy ufunc) 
         'documented format and no overflow/underflow flag; x//y = floor(x/y) and x%y = x - y*floor(x/y) exactly; the identity '
         '(x//y)*y + x%y == x is evaluated through the library. Key = (op, signedness pair, method, sign of quotient, quotient exact?, '
         'divisor class, rounding); non-trivial = quotient inexact or negative or divisor = +/-LSB.')
-DECIDING_OPS = ['__truediv__', '__floordiv__', '__mod__', 'truediv', 'floordiv', 'mod']
+DECIDING_OPS = ['__truediv__', '__floordiv__', '__mod__', 'truediv', 'floordiv', 'mod', '__ifloordiv__', '__itruediv__', '__imod__']
 ANCHORS = ['functions.truediv', 'functions.floordiv', 'functions.mod', 'functions.truediv.<locals>._truediv_raw',
            'functions.floordiv.<locals>._floordiv_raw', 'functions.mod.<locals>._mod_raw']
 EXHAUSTIVE = {'quick': 'every code pair (divisor != 0) of every pair of conventional+edge formats with n_word<=4 (n_frac 0..n_word), / // %, three rounding modes on /',
@@ -199,6 +199,10 @@ def run_case(case, ctx):
     _try(lambda: fm.truediv(x, y, method=method))
     _try(lambda: fm.floordiv(x, y, method=method))
     _try(lambda: fm.mod(x, y, method=method))
+    import operator
+    for op_ in (operator.itruediv, operator.ifloordiv, operator.imod):
+        x_ = Fxp(cx, sx, wx, fx, raw=True, op_method=method, rounding=r)
+        _try(lambda: op_(x_, y))
     _try(lambda: np.true_divide(x, y))
     _try(lambda: np.floor_divide(x, y))
     _try(lambda: np.mod(x, y))
